@@ -141,6 +141,7 @@ def flatten_alts(s, key):
             out.append(("expression", [T("raw", '([a] = 1)')], "( [a] = 1 )"))
             out.append(("expression-and", [T("raw", "([a] >= 2 AND [b] < 3)")], "( ( [a] >= 2 ) AND ( [b] < 3 ) )"))
             out.append(("expression-str", [T("raw", '([name] = "foo)" OR [name] = \'(x\')')], '( ( [name] = "foo)" ) OR ( [name] = \'(x\' ) )'))
+            out.append(("expression-str2", [T("raw", '([name] = "foo)")')], '( [name] = "foo)" )'))
         elif pat == "^/(.*?)/$":
             out.append(("regex", [T("raw", "/^ab c$/")], "/^ab c$/"))
         elif pat and "a-fA-F0-9" in pat:
